@@ -6,6 +6,8 @@ package writer
 
 // log-only helpers of core/util (base64 / summaries of messages for log lines): no effect on the heap
 //@ purepkg github.com/zilliztech/milvus-cdc/core/util.Base64 github.com/zilliztech/milvus-cdc/core/util.MsgPackInfoForLog
+// String() of the protobuf enum MsgType (log lines)
+//@ purepkg github.com/milvus-io/milvus-proto/go-api/v2/commonpb.MsgType
 
 // ---- C08: the decision from (operation time, create time, drop time) -------------------
 // specSkip / specApply are written from the property statement:
@@ -126,3 +128,37 @@ package writer
 // thin adapter: inlined into the API-event operations
 //@ func (*ChannelWriter).WaitObjReadyForAPIEvent
 //@   inline
+
+// ---- C07: bytes sent downstream are the serialized messages of the pack, marked as replicated ---------------
+// marshalled / marshalOut: the messages handed to TsMsg.Marshal, in call order, and what Marshal returned.
+//@ ghost var marshalled seq[msgstream.TsMsg]
+// marshalBytes(k): the bytes returned by the k-th call of Marshal (a history function: every call defines one new point)
+//@ ufunc marshalBytes (Int) Slice
+// Marshal of the msgstream message types returns the protobuf encoding as []byte (read from msg.go of the pinned
+// milvus pkg module); that the bytes decode to an equal message is the protobuf round trip of the dependency (assumed)
+//@ trusted func (github.com/milvus-io/milvus/pkg/mq/msgstream.TsMsg).Marshal
+//@   params recv input
+//@   ensures len(marshalled) == old(len(marshalled)) + 1 && marshalled[old(len(marshalled))] == input && (forall i int :: {marshalled[i]} 0 <= i && i < old(len(marshalled)) ==> marshalled[i] == old(marshalled[i]))
+//@   ensures result1 == nil ==> typeIs(result0, "[]byte") && unbox(result0, "[]byte") == marshalBytes(old(len(marshalled)))
+//@   modifies marshalled
+
+// stamped: the message carries the replication mark of this writer
+//@ spec stamped(m msgstream.TsMsg, id string) bool = msgGet(m, "GetBase") != nil && msgGet(m, "GetBase").ReplicateInfo != nil && msgGet(m, "GetBase").ReplicateInfo.IsReplicate && msgGet(m, "GetBase").ReplicateInfo.ReplicateID == id
+
+//@ func (*ChannelWriter).HandleReplicateMessage
+//@   props C07
+//@   requires c != nil && msgPack != nil && c.messageManager != nil && wfNames(c)
+//@   ensures [an-empty-pack-is-rejected-without-a-downstream-call] old(len(msgPack.Msgs)) == 0 ==> result2 != nil && sentMessages == old(sentMessages) && len(marshalled) == old(len(marshalled))
+//@   ensures [at-most-one-downstream-call] sentMessages == old(sentMessages) || sentMessages == old(sentMessages) + 1
+//@   ensures [success-means-one-call-carrying-the-packs-envelope] result2 == nil ==> sentMessages == old(sentMessages) + 1 && lastSentParam != nil && lastSentParam.ChannelName == channelName && lastSentParam.BeginTs == old(msgPack.BeginTs) && lastSentParam.EndTs == old(msgPack.EndTs) && lastSentParam.StartPositions == old(msgPack.StartPositions) && lastSentParam.EndPositions == old(msgPack.EndPositions) && lastSentParam.Base != nil && lastSentParam.Base.ReplicateInfo != nil && lastSentParam.Base.ReplicateInfo.IsReplicate
+//@   ensures [one-serialized-message-per-source-message-in-order] result2 == nil ==> len(lastSentParam.MsgsBytes) == old(len(msgPack.Msgs)) && len(marshalled) == old(len(marshalled)) + old(len(msgPack.Msgs)) && (forall i int :: {lastSentParam.MsgsBytes[i]} 0 <= i && i < old(len(msgPack.Msgs)) ==> lastSentParam.MsgsBytes[i] == marshalBytes(old(len(marshalled)) + i))
+//@   ensures [every-serialized-message-carries-the-replicate-id] result2 == nil && c.replicateID != "" ==> (forall i int :: {marshalled[old(len(marshalled)) + i]} 0 <= i && i < old(len(msgPack.Msgs)) && msgKnown(marshalled[old(len(marshalled)) + i]) ==> stamped(marshalled[old(len(marshalled)) + i], c.replicateID))
+//@   ensures [the-returned-checkpoint-is-the-last-end-position] result2 == nil ==> result0 == old(msgPack.EndPositions[len(msgPack.EndPositions) - 1].MsgID)
+// the `!ok` branch after Marshal is dead under the Marshal contract (it returns []byte whenever it returns no error)
+//@   unreachable return@4
+//@   loop 1 invariant wfNames(c) && sentMessages == old(sentMessages)
+//@   loop 1 invariant preservedStruct(msgstream.MsgPack) && preservedFields(ChannelWriter.replicateID) && preservedFields(ChannelWriter.messageManager)
+//@   loop 1 invariant len(msgBytesArr) == rangeindex + 1 && len(marshalled) == old(len(marshalled)) + rangeindex + 1 && (msgBytesArr == nil || freshRef2(msgBytesArr))
+//@   loop 1 invariant forall j int :: {msgBytesArr[j]} 0 <= j && j <= rangeindex ==> msgBytesArr[j] == marshalBytes(old(len(marshalled)) + j)
+//@   loop 1 invariant c.replicateID != "" ==> (forall j int :: {marshalled[old(len(marshalled)) + j]} 0 <= j && j <= rangeindex && msgKnown(marshalled[old(len(marshalled)) + j]) ==> stamped(marshalled[old(len(marshalled)) + j], c.replicateID))
+//@   loop 1 invariant preservedArrays("*msgpb.MsgPosition") && preservedFields(msgpb.MsgPosition.MsgID)
